@@ -37,7 +37,8 @@ ASSUMPTIONS = ["floating-point rounding not modelled: implementation matrices ar
                "modular); one-qubit gates outside the catalog (qiskit unitary/u/r/sx/sxdg/id, myQLM AbstractGate/I) are "
                "fitted by the converter's optimiser (random restarts, not reproducible from the seed): circuits "
                "containing k of them are judged with relative tolerance k * 1e-4 (the converter's own min_precision_gate)",
-               "perm(I + a J_n) = 1 + a^n is proved for n = 2, 3, 4 only; other n are covered per instance"]
+               "perm(I + a J_n) = 1 + a^n on the dual-rail basis is proved for every n >= 2 (C20_crot_all_n) for the data block "
+               "blockdiag(I, I + aJ); that the implementation's block is this one up to sigma_max is checked per instance (n = 2, 3, 4)"]
 EXPLANATION = ("Two converter defects found by this check are repaired in /repo (c0ab6b50: post-selection transfer for "
                "non-monotone mode maps in Experiment._compose_experiment; 8dc2ac38: no post-processed CNOT when CZ/CSIGN/SWAP "
                "gates are present); their witnesses stay in the corpus as regression guards. Every exact-model request is "
